@@ -223,25 +223,52 @@ def handle (op : String) (args : List String) : Option String :=
     let cfg : RelayConfig := ⟨← kvBytes args "peer", ← kvBytes args "proto", ← kvBytes args "tpeer", ← kvBytes args "tproto"⟩
     let s ← stream args
     some (ctlOut ((relayNew cfg).map (·.handles s)) cfg.validate)
+  | "relayfwd" => do
+    -- what the relay's stream handler does with a stream that arrived on a link with local peer
+    -- `ll` from the remote peer `sr`
+    let cfg : RelayConfig := ⟨← kvBytes args "peer", ← kvBytes args "proto", ← kvBytes args "tpeer", ← kvBytes args "tproto"⟩
+    let ll ← kvBytes args "ll"
+    let sr ← kvBytes args "sr"
+    match relayNew cfg with
+    | none => some "noctl"
+    | some c =>
+      let o := c.opens ll sr
+      some s!"ok back={hexOrDash o.backLink.1}>{hexOrDash o.backLink.2} open={hexOrDash o.openProto} from={hexOrDash o.openLocal} to={hexOrDash o.openPeer}"
   | "accept" => do
-    let cfg : AcceptConfig := ⟨← kvBytes args "local", ← kvBytesList args "remotes", ← kvBytes args "proto"⟩
+    let cfg : AcceptConfig := ⟨← kvBytes args "local", ← kvBytesList args "remotes", ← kvBytes args "proto", ← kvNat args "tid"⟩
     let s ← stream args
     some (ctlOut ((acceptNew cfg).map (·.handles s)) cfg.validate)
   | "srpc" => do
-    let cfg : SrpcConfig := ⟨← kvBytesList args "peers", ← kvBytesList args "protos"⟩
+    let cfg : SrpcConfig := ⟨← kvBytesList args "peers", ← kvBytesList args "protos", ← kvBool args "dis"⟩
     let s ← stream args
     some (ctlOut ((srpcBuild cfg).map (·.handles s)) cfg.validate)
+  | "srpcdef" => do
+    -- Config.ApplyDefaults(defs).BuildServer
+    let cfg : SrpcConfig := ⟨← kvBytesList args "peers", ← kvBytesList args "protos", ← kvBool args "dis"⟩
+    let defs ← kvBytesList args "defs"
+    let s ← stream args
+    let cfg2 := cfg.applyDefaults defs
+    some (ctlOut ((srpcBuild cfg2).map (·.handles s)) cfg2.validate)
   | "srpcraw" => do
-    let srv : SrpcServer := ⟨← kvBytesList args "protos", ← kvBytesList args "peers"⟩
+    let srv : SrpcServer := ⟨← kvBytesList args "protos", ← kvBytesList args "peers", ← kvBool args "dis"⟩
     let s ← stream args
     some (ctlOut (some (srv.handles s)) true)
+  | "srpcest" => do
+    -- Server.HandleMountedStream: the EstablishLinkWithPeer directive it adds
+    let srv : SrpcServer := ⟨← kvBytesList args "protos", ← kvBytesList args "peers", ← kvBool args "dis"⟩
+    let ll ← kvBytes args "ll"
+    let sr ← kvBytes args "sr"
+    match srv.backLink ll sr with
+    | none => some "ok back=none"
+    | some (a, b) => some s!"ok back={hexOrDash a}>{hexOrDash b}"
   | "pubsub" => do
-    let pid ← kvBytes args "pid"
+    let a : PubsubArgs := ⟨← kvBytes args "peer", ← kvBytes args "pid"⟩
     let s ← stream args
-    some (ctlOut (some (pubsubHandles pid s)) true)
+    some (ctlOut (some (a.handles s)) true)
   | "solicit" => do
+    let c : SolicitConfig := ⟨← kvNat args "mh"⟩
     let s ← stream args
-    some (ctlOut (some (solicitHandles s)) true)
+    some (ctlOut (some (c.handles s)) true)
   -- ---------------- C35 ----------------
   | "rpcsvc" => do
     let c : RpcSvc := ⟨← kvBytesList args "prefixes", ← kvBool args "strip", ← kvBool args "re",
